@@ -131,7 +131,8 @@ def coq_project():
         if f.endswith(".list"):
             for l in open(os.path.join(d, f)):
                 l = l.strip()
-                if l and not l.startswith("#"):
+                # a fragment may name files its author has not written yet: skip them
+                if l and not l.startswith("#") and (os.path.exists(os.path.join(COQ, l)) or l.startswith("Gen/")):
                     txt += l + "\n"
     cp = os.path.join(COQ, "_CoqProject")
     if not os.path.exists(cp) or open(cp).read() != txt:
